@@ -1076,6 +1076,14 @@ def _c02_xtype(tier):
               "write 0 f i %d %s" % (len(vals), " ".join(ft(v) for v in vals)), "close 0",
               "open 1 vio r 1 %d %d %d" % (fmt if scen.major(fmt) == scen.RAW else 0, ch, RATE), "read 1 i i %d" % (2 * len(vals) + ch),
               "cmd 1 SET_NORM_DOUBLE 0", "seek 1 0 0", "read 1 d i %d" % (2 * len(vals)), "seek 1 0 0", "read 1 f i %d" % (2 * len(vals)), "close 1")
+        # the same with clipping on and values at and beyond the extremes: saturation instead of wrapping
+        big = [float(1 << (u - 1)), float(1 << u), -float(1 << u), 1.5 * (1 << (u - 1)), -1.5 * (1 << (u - 1)), 5.0 * (1 << (u - w)), -float(1 << (u - 1)), float(top * (1 << (u - w)))]
+        big = (big * ((n // len(big)) + 1))[:max(len(big), n) // ch * ch]
+        S.scn(fmt="0x%x" % fmt, ch=ch, T="d", kind="unnormclip", fmode=1)
+        S.add("file 1 new", "open 0 vio w 1 %d %d %d" % (fmt, ch, RATE), "cmd 0 SET_CLIPPING 1", "cmd 0 SET_NORM_DOUBLE 0",
+              "write 0 d i %d %s" % (len(big), " ".join(dt(v) for v in big)), "cmd 0 SET_NORM_DOUBLE 1", "cmd 0 SET_NORM_FLOAT 0",
+              "write 0 f i %d %s" % (len(big), " ".join(ft(v) for v in big)), "close 0",
+              "open 1 vio r 1 %d %d %d" % (fmt if scen.major(fmt) == scen.RAW else 0, ch, RATE), "read 1 i i %d" % (2 * len(big) + ch), "close 1")
     # float / double files read through the integer types (scaling off): nearest integer, saturation with clipping on
     fvals = [0.0, 0.5, -0.5, 1.5, 2.5, -1.5, -2.5, 0.49999997, 0.75, 1.0, -1.0, 3.25, 100.5, 101.5, 32766.5, 32767.0, 32767.5, 32768.0, -32768.0, -32768.5, -32769.0, 65536.0, 1e6,
              16777215.0, 16777216.0, 2147483520.0, 2147483648.0, -2147483648.0, -2147483904.0, 4294967296.0, -4294967296.0, 3e9, -3e9, 1e-3, -1e-3] + [rng.uniform(-40000, 40000) for _ in range(40)] + [rng.uniform(-3e9, 3e9) for _ in range(20)]
